@@ -108,6 +108,21 @@ def list_roundtrip(is_dir, ni, size, mi):
     ok = ok and info.get("unix.mode") == (want_mode & 0o7777)
     if not ok:
         hb.KEY = "list-field"
+        return ok
+    # the same line read again a year later (same client object, same process): the year-less form is resolved against the
+    # clock of THAT moment - the parser is a function of (text, now), it keeps nothing from earlier calls
+    if recent and not boundary and not (d.month == 2 and d.day == 29):
+        saved = hb.WALL.now
+        try:
+            hb.WALL.now = saved + 365 * DAY
+            d2 = d.replace(year=d.year + 1)
+            if d2.timestamp() - hb.ZONE <= hb.WALL.now:
+                got_name2, info2 = client.parse_list_line((line + "\r\n").encode("utf-8"))
+                if info2.get("modify") != d2.strftime("%Y%m%d%H%M00"):
+                    hb.KEY = "list-field-depends-on-earlier-call"
+                    return False
+        finally:
+            hb.WALL.now = saved
     return ok
 
 
